@@ -44,6 +44,10 @@ CLAIMED = {
             "Closed allow-list of async primitives over all resolved call sites (no combinator that polls two futures, no manual Future impl, no hand-written poll), shared executor path for sync and async, and await-inside-loop order over the document-ordered IndexMap: a fact about every schedule.",
             "futures::StreamExt::next / now_or_never / stream::iter are trusted to poll exactly their one underlying future/stream.",
             "who-calls allow-list over resolved callees (MIR) + HIR await-in-loop structure + call-graph facts", False),
+    "C29": ("proof",
+            "Finite decision tables are extracted from the type-checked source (match arms with first-match semantics over the 4x4 variant product; all CFG paths x atom assignments of is_variable_usage_allowed) and every cell is compared with the specification functions; the recursive cell calls the same function on the item types, so structural induction extends the 16 cells to every nesting of list and non-null. obligations == discharged == cells.",
+            "Trusted: rustc's HIR/MIR, the spec tables transcribed in analyzer/rules/C29.py, and that `==` on NamedType is name equality (C30.EQ). Fails closed if the functions stop being single matches / loop-free.",
+            "decision-table extraction from HIR match arms + MIR path enumeration, exhaustive cell-by-cell comparison", False),
 }
 
 NOT_APPLICABLE = {
